@@ -140,8 +140,10 @@ def check_cdata(prog: Program, rep: Report) -> None:
         uses_ffi = any(t.endswith("._heap.ffi") or t.endswith(".ffi") or t.split(".")[-1] in ("ffi", "lib") for t in mi.imports.values())
         if not uses_ffi:
             continue
-        handle_aliases = {name for name, val in mi.assigns.items() if isinstance(val, ast.Attribute)
-                          and norm(val) in ("ffi.new_handle", "ffi.gc", "ffi.new")}
+        handle_aliases = {name for name, val in mi.assigns.items() if (isinstance(val, ast.Attribute)
+                          and norm(val) in ("ffi.new_handle", "ffi.gc", "ffi.new")) or
+                          (isinstance(val, ast.Call) and norm(val.func).split(".")[-1] == "partial" and val.args
+                           and norm(val.args[0]) in ("ffi.new_handle", "ffi.gc", "ffi.new"))}
         # module-level functions that hand back cffi data (every return value is ffi.gc / ffi.new / ffi.new_handle of something,
         # or the result of another such function)
         producers: set = set()
@@ -153,6 +155,12 @@ def check_cdata(prog: Program, rep: Report) -> None:
                                                                       or norm(RFn.res(v).func) in handle_aliases | producers) for v in rets):
                     producers.add(fname)
         handle_aliases = handle_aliases | producers
+        # container classes of the module that create cffi data themselves (e.g. a dict subclass whose __missing__ makes the handle):
+        # an attribute holding such a container holds cdata
+        for c2 in mi.classes.values():
+            if c2 is not ci and any(isinstance(x, ast.Call) and norm(x.func) in ({"ffi.gc", "ffi.new_handle", "ffi.new"} | handle_aliases)
+                                    for m2 in c2.methods.values() for x in ast.walk(m2)):
+                handle_aliases = handle_aliases | {c2.name}
         cattrs: Dict[str, ast.AST] = {}
         for m in [_cm(prog, ci, name) for name in ci.methods]:
             for a in ast.walk(m):
